@@ -10,6 +10,13 @@ def _f(mod, fn):
 
 
 PROPS = {
+    'C12': {
+        'lean': 'C12',
+        'corr': [_f('comp_sema', 'corr')],
+        'oracles': [_f('comp_sema', 'oracle')],
+        'modelled': ['utils.SlidingWindowSemaphore', 'utils.TaskSemaphore', 'utils.CountCallbackInvoker',
+                     'threading.Condition wait/notify (blocking model: FIFO notify of one waiter)'],
+    },
     'C14': {
         'lean': 'C14',
         'corr': [_f('comp_plan', 'corr')],
